@@ -153,45 +153,46 @@ Fixpoint suffixLoop (ld : list Z -> res (option (list Z))) (formatted : bool) (s
 Definition str_true : list Z := [116; 114; 117; 101].
 Definition str_false : list Z := [102; 97; 108; 115; 101].
 
+(* primitive::load from the first byte after an optional sign (lines 61-171): 0b / 0x values, or
+   digits and dots, then the suffix loop *)
+Definition loadNum (ld : list Z -> res (option (list Z))) (s1 : list Z) : res (option (list Z)) :=
+  c1 <- rd s1 ;;
+  fmt <- (if c1 =? 48 then
+            c2 <- rd1 s1 ;;
+            let C := upper c2 in
+            if C =? 66 then
+              let s3 := tl (tl s1) in
+              s4 <- binDigits s3 ;;
+              Ok (Some (if (length s4 =? length s3)%nat then None else Some s4))
+            else if C =? 88 then
+              let s3 := tl (tl s1) in
+              s4 <- hexDigits s3 ;;
+              Ok (Some (if (length s4 =? length s3)%nat then None else Some s4))
+            else Ok None
+          else Ok None) ;;
+  match fmt with
+  | Some None => Ok None                               (* 0x / 0b without digits: c = c0, none *)
+  | Some (Some s4) => s5 <- suffixLoop ld true s4 ;; Ok (Some s5)
+  | None =>
+    r <- digitsDots s1 false ;;
+    if negb (snd r) then Ok None
+    else s5 <- suffixLoop ld false (fst r) ;; Ok (Some s5)
+  end.
+
 Fixpoint load (fuel : nat) (includeSign : bool) (s : list Z) : res (option (list Z)) :=
   match fuel with
   | O => NoFuel
   | S f =>
     (* strlen(c) walks to the NUL: needs the cursor inside the buffer *)
-    _ <- rd s ;;
+    c <- rd s ;;
     if is_prefix str_true s then Ok (Some (skipn 4 s))
     else if is_prefix str_false s then Ok (Some (skipn 5 s))
     else
-      c <- rd s ;;
       let signed := (c =? 43) || (c =? 45) in
       if signed && negb includeSign then Ok None
       else
         s1 <- (if signed then lexSkipWs (tl s) else Ok s) ;;
-        c1 <- rd s1 ;;
-        (* '0' then B/X: formatted value *)
-        fmt <- (if c1 =? 48 then
-                  c2 <- rd1 s1 ;;
-                  let C := upper c2 in
-                  if C =? 66 then
-                    let s3 := tl (tl s1) in
-                    s4 <- binDigits s3 ;;
-                    Ok (Some (if (length s4 =? length s3)%nat then None else Some s4))
-                  else if C =? 88 then
-                    let s3 := tl (tl s1) in
-                    s4 <- hexDigits s3 ;;
-                    Ok (Some (if (length s4 =? length s3)%nat then None else Some s4))
-                  else Ok None
-                else Ok None) ;;
-        match fmt with
-        | Some None => Ok None                               (* 0x / 0b without digits: c = c0, none *)
-        | Some (Some s4) =>
-          s5 <- suffixLoop (load f true) true s4 ;; Ok (Some s5)
-        | None =>
-          r <- digitsDots s1 false ;;
-          let '(s2, seen) := r in
-          if negb seen then Ok None
-          else s5 <- suffixLoop (load f true) false s2 ;; Ok (Some s5)
-        end
+        loadNum (load f true) s1
   end.
 
 (* ---------------------------------------------------------------- tokens *)
